@@ -118,8 +118,26 @@ func identityBundle(cb *compiled) *mapBundle {
 	return b
 }
 
+// The application's own function and print directive (every test binary of this package has them):
+// verifFn returns the number of its arguments, verifBang appends "!" (and does not cancel autoescaping).
+func init() {
+	soyhtml.PrintDirectives["verifBang"] = soyhtml.PrintDirective{Apply: func(v data.Value, _ []data.Value) data.Value { return data.String(v.String() + "!") }, ValidArgLengths: []int{0}}
+	soyhtml.Funcs["verifFn"] = soyhtml.Func{Apply: func(a []data.Value) data.Value { return data.Int(len(a)) }, ValidArgLengths: []int{0, 1}}
+	soyhtml.Funcs["verifTag"] = soyhtml.Func{Apply: func(a []data.Value) data.Value { return data.String("<" + string(a[0].(data.String)) + ">") }, ValidArgLengths: []int{1}}
+	// and their JavaScript counterparts (jsCustomPrelude defines the directive's function)
+	soyjs.Funcs["verifFn"] = soyjs.Func{Name: "verifFn", Apply: func(js soyjs.JSWriter, args []ast.Node) { js.Write(fmt.Sprintf("(%d)", len(args))) }, ValidArgLengths: []int{0, 1}}
+	soyjs.Funcs["verifTag"] = soyjs.Func{Name: "verifTag", Apply: func(js soyjs.JSWriter, args []ast.Node) { js.Write("('<' + (", args[0], ") + '>')") }, ValidArgLengths: []int{1}}
+	soyjs.PrintDirectives["verifBang"] = soyjs.PrintDirective{Name: "verifBang", CancelAutoescape: false}
+	// the string function once more under a second key (same Func, same Name)
+	soyhtml.Funcs["aTag"] = soyhtml.Funcs["verifTag"]
+	soyjs.Funcs["aTag"] = soyjs.Funcs["verifTag"]
+}
+
+// jsCustomPrelude is loaded before generated JavaScript that may use the application's directive.
+var jsCustomPrelude = jsFile{Name: "verif-custom.js", Src: "function verifBang(v) { return String(v) + '!'; }\n"}
+
 func genC08(t *rapid.T) C08Case {
-	g := &gen.G{T: t, P: gen.Profile{Unicode: true, HTMLChars: true, Directives: true}}
+	g := &gen.G{T: t, P: gen.Profile{Unicode: true, HTMLChars: true, Directives: true, Custom: rapid.Bool().Draw(t, "custom")}}
 	c := C08Case{Prog: gen.GenProgram(g, gen.ProgOpts{MaxTemplates: 4, MaxDepth: 3, MaxCmds: 4, ExprDepth: 2, PosWeight: 2, CallWeight: 8, ScopeWeight: 5, MinTemplates: 2, Valueless: true, AllData: true})}
 	for i, n := 0, rapid.IntRange(1, 3).Draw(t, "ndata"); i < n; i++ {
 		c.Datas = append(c.Datas, g.AnyValue(2).M)
@@ -146,13 +164,7 @@ func checkC08(c C08Case) Verdict {
 	}
 	// user-extensible registries: installed for the case, removed afterwards
 	savedObl := soyhtml.ObligatoryPrintDirectiveNames
-	soyhtml.PrintDirectives["verifBang"] = soyhtml.PrintDirective{Apply: func(v data.Value, _ []data.Value) data.Value { return data.String(v.String() + "!") }, ValidArgLengths: []int{0}}
-	soyhtml.Funcs["verifFn"] = soyhtml.Func{Apply: func(a []data.Value) data.Value { return data.Int(len(a)) }, ValidArgLengths: []int{0, 1}}
-	defer func() {
-		soyhtml.ObligatoryPrintDirectiveNames = savedObl
-		delete(soyhtml.PrintDirectives, "verifBang")
-		delete(soyhtml.Funcs, "verifFn")
-	}()
+	defer func() { soyhtml.ObligatoryPrintDirectiveNames = savedObl }()
 
 	// the templates and their data sets
 	var fqs []string
@@ -197,6 +209,7 @@ func checkC08(c C08Case) Verdict {
 	}
 	first := map[key]string{}
 	refOut := map[int]ref.Result{}
+	refMarked := map[int]ref.Result{}
 	renderers := map[string]*soyhtml.Renderer{}
 	config := 0
 	repeats := 0
@@ -247,11 +260,15 @@ func checkC08(c C08Case) Verdict {
 				rd := renderers[rk]
 				if rd == nil || op.Via == 1 {
 					rd = cb.tofu.NewRenderer(fqs[ti])
-					if c.Prog.HasIJ {
-						rd.Inject(ij)
+					// (the setters in either order; their results are used, as in a chained call)
+					if op.Op == "renderMsgs" && op.Tmpl%2 == 0 {
+						rd = rd.WithMessages(msgs)
 					}
-					if op.Op == "renderMsgs" {
-						rd.WithMessages(msgs)
+					if c.Prog.HasIJ {
+						rd = rd.Inject(ij)
+					}
+					if op.Op == "renderMsgs" && op.Tmpl%2 == 1 {
+						rd = rd.WithMessages(msgs)
 					}
 					renderers[rk] = rd
 				}
@@ -265,14 +282,13 @@ func checkC08(c C08Case) Verdict {
 			// with the identity bundle (every message text wrapped in marks) the output is the plain output
 			// plus marks, whatever other messages were rendered before
 			if op.Op == "renderMsgs" && di == ti && len(c08Configs[config]) == 0 && p == nil && !hasPlural && !hasMarks {
-				want, cached := refOut[ti]
+				want, cached := refMarked[ti]
 				if !cached {
-					want = ref.Render(&c.Prog.Prog, fqs[ti], c.Prog.AllData[fqs[ti]], c.Prog.IJ, c.Prog.HasIJ)
-					refOut[ti] = want
+					want = ref.RenderMarked(&c.Prog.Prog, fqs[ti], c.Prog.AllData[fqs[ti]], c.Prog.IJ, c.Prog.HasIJ)
+					refMarked[ti] = want
 				}
-				stripped := strings.NewReplacer("«", "", "»", "").Replace(buf.String())
-				if want.Status == ref.OK && (rerr != nil || ref.CanonRefs(stripped) != ref.CanonRefs(want.Out)) {
-					failure = fmt.Errorf("step %d: render of %s with the identity message bundle gives %q (error %v); without the marks the language defines %q", i, fqs[ti], trunc(buf.String(), 400), rerr != nil, trunc(want.Out, 400))
+				if want.Status == ref.OK && (rerr != nil || ref.CanonRefs(buf.String()) != ref.CanonRefs(want.Out)) {
+					failure = fmt.Errorf("step %d: render of %s with the bundle of marked identity translations gives %q (error %v); the language defines %q", i, fqs[ti], trunc(buf.String(), 400), rerr != nil, trunc(want.Out, 400))
 				}
 			}
 			// a render is a pure function of (template, data): it must also equal what the reference
